@@ -22,13 +22,15 @@ def _data(desc):
   return _DCACHE[k]
 
 
-def gen_dataset(r, dmax=6, kind=None, tuples=True, unknown=False, big=False):
+def gen_dataset(r, dmax=6, kind=None, tuples=True, unknown=False, big=False, tiny_scale_p=0.0):
   d = r.randint(2, dmax)
   c = r.choice([2, 2, 3, 3, 4])
   n = max(4 * d, 5 * c) + r.randint(0, 24 if big else 12)
   desc = dict(kind=kind or "blobs", seed=r.randrange(10**6), n=n, d=d, classes=c,
               extra=r.choice([0, 0, 5]), cond=r.choice([1, 10, 100]),
               scale=r.choice([0, 0, 0.5, 1]), sep=r.choice([1.0, 2.0, 4.0]))
+  if tiny_scale_p and r.random() < tiny_scale_p:
+    desc["global_scale"] = r.choice([1e-6, 1e-9, 1e4])
   if tuples:
     desc["tuples"] = r.randint(max(10, 2 * d), 40)
   if unknown:
@@ -128,7 +130,7 @@ def gen_history(seed, tier, classes=None, weights=None, n_ops=(6, 16),
                 max_handles=3, pre_p=0.4, dmax=6, fresh_p=0.0, dataset_kinds=None,
                 unknown=False, verbose_p=0.15, extras_p=0.5, share_p=0.3,
                 classifier_bias=1, cp_fit_p=0.25, cp_invalid_p=0.0, calib_invalid_p=0.25,
-                store_bias=1):
+                store_bias=1, tiny_scale_p=0.0):
   r = substream(seed, "hist")
   W = dict(DEFAULT_W)
   W.update(weights or {})
@@ -141,7 +143,8 @@ def gen_history(seed, tier, classes=None, weights=None, n_ops=(6, 16),
   datasets = {}
   for i in range(nd):
     kind = r.choice(dataset_kinds) if dataset_kinds else None
-    datasets["D%d" % i] = gen_dataset(r, dmax=dmax, kind=kind, unknown=unknown)
+    datasets["D%d" % i] = gen_dataset(r, dmax=dmax, kind=kind, unknown=unknown,
+                                      tiny_scale_p=tiny_scale_p)
   dkeys = sorted(datasets)
   plan = dict(run_seed=seed, datasets=datasets, ops=[],
               world=dict(jumpy_clock=r.random() < 0.3,
@@ -204,9 +207,15 @@ def gen_history(seed, tier, classes=None, weights=None, n_ops=(6, 16),
         s.fitted = s.fitted_before if hasattr(s, "fitted_before") else False
 
   def probe(s):
-    return dict(data=s.fit_data or s.data, seed=r.randrange(1000), m=r.randint(3, 7),
-                kind=r.choice(["mixed", "dups", "plain", "random"]),
-                via="indices" if (s.pre and r.random() < 0.5) else "formed")
+    p = dict(data=s.fit_data or s.data, seed=r.randrange(1000),
+             m=r.choice([1, 1, 2, 3, 4, 5, 6, 7]),
+             kind=r.choice(["mixed", "dups", "plain", "random"]),
+             via="indices" if (s.pre and r.random() < 0.5) else "formed")
+    if r.random() < 0.3:
+      p["layout"] = r.choice(["F", "T", "T"])
+    if r.random() < 0.25:
+      p["near"] = r.choice([1e-6, 1e-9, 1e-12])
+    return p
 
   def methods(s):
     m = ["transform", "pair_distance", "pair_score", "score_pairs",
@@ -216,8 +225,12 @@ def gen_history(seed, tier, classes=None, weights=None, n_ops=(6, 16),
     return m
 
   s0 = None
-  while s0 is None:
+  for _ in range(50):           # bounded: every generator loop carries a cap
     s0 = new_handle()
+    if s0 is not None:
+      break
+  if s0 is None:
+    return plan                 # nothing feasible for this seed: an empty history
   fit_op(s0)
   total = r.randint(*n_ops)
   guard = 0
